@@ -239,6 +239,9 @@ def run(ctx):
         want_c = [c for k, c in fam.items() if fld.startswith(k)][0]
         ctx.ob("K-LEXICAL", "fold %s -> %s keeps category %s" % (fld, v, want_c), cat.get(v) == want_c, "enum category %s" % cat.get(v))
 
+    # component order is preserved end to end (formatter, templates, parsers, fold, accessors)
+    import maps as _maps
+    _maps.rule_O_ORDER(ctx)
     ctx.undecided = ["nothing value-dependent remains except set iteration order, which the property treats as a set"]
     ctx.assumptions = ["Vec::insert(i, x) places x at position i", "iterating a Vec preserves order"]
     ctx.trusted = ["rustc HIR", "mirfacts driver", "python rule layer"]
